@@ -32,7 +32,7 @@ TRUSTED = ["Coq 8.16.1 kernel; vm_compute for case evaluation",
            "at start-up), so Headers key folding is ASCII folding on these names",
            "harness/props/C24.py: the in-memory peers (python ssl over MemoryBIO with mitmproxy's test certificates), the "
            "original destination of transparent mode given directly (no OS lookup), tls_start_* hooks answered like "
-           "test_tls.py does; lib/sansio.py plays proxy/server.py"]
+           "test_tls.py does, tls_clienthello like TlsConfig does; lib/sansio.py plays proxy/server.py"]
 ASSUMPTIONS = ["one request in flight per client connection (HTTP/1, no pipelining), OpenConnection succeeds; so no server "
                "connection is in the waiting or error state when get_connection runs",
                "no other addon rewrites headers, redirects requests or answers CONNECT",
@@ -56,6 +56,8 @@ MODES = ["regular", "upstream", "upstreams", "reverse", "reverses", "transparent
 def _gen_parse(rng):
     toks = [":", ":", "u", "p", "\n", "\n:", "a\n", " ", "ü", "€", "\U0001f600", "\ud800", "\udfff", "::", "user", "pw", "\r", "\x00"]
     s = "".join(rng.choice(toks) for _ in range(rng.randint(0, 6)))
+    if rng.chance(0.45):
+        s = rng.choice(["user", "ü", "a b", "\U0001f600x", "u\n", "\n"]) + ":" + s
     return {"k": "parse", "auth": [ord(c) for c in s]}
 
 
@@ -71,9 +73,9 @@ def _gen_req(rng, c):
     host = rng.choice(HOSTS)
     https = rng.chance(0.3)
     port = rng.choice([None, None, None, 8080 if not https else 8443])
-    hh = rng.choice([None, host, host, host + ":81"]) if form == "origin" else host
+    hh = rng.choice([None, host, host, host, host, host + ":81", host + ":81"]) if form == "origin" else host
     return {"c": c, "t": "req", "form": form, "https": https, "host": host, "port": port, "hosthdr": hh,
-            "hdrs": _gen_hdrs(rng), "proxy_ok": not rng.chance(0.12)}
+            "hdrs": _gen_hdrs(rng), "proxy_ok": not rng.chance(0.07)}
 
 
 def _gen_session(rng, tier):
@@ -82,7 +84,7 @@ def _gen_session(rng, tier):
     case = {"k": "session", "auth": auth, "send_host": not rng.chance(0.25), "eager": not rng.chance(0.3), "steps": []}
     steps = case["steps"]
     focus = rng.choice(MODES + ["upstream", "upstream", "reverse"])
-    tun = {}
+    tun, used, modes_ = {}, {}, {}
     for c in range(nconn):
         mode = focus if rng.chance(0.7) else rng.choice(MODES)
         st = {"c": c, "t": "open", "mode": mode}
@@ -91,17 +93,22 @@ def _gen_session(rng, tier):
             st["tls"] = (mode == "reverses") if mode.startswith("reverse") else rng.chance(0.35)
         steps.append(st)
         tun[c] = False
+        modes_[c] = mode
+        used[c] = not (mode == "reverses" and case["eager"])
     for _ in range(rng.randint(1, 7)):
         c = rng.randint(0, nconn - 1)
         r = rng.random()
-        if r < 0.22 and not tun[c]:
+        if r < 0.22 and not tun[c] and (modes_[c] in ("regular", "upstream", "upstreams") or rng.chance(0.12)):
             steps.append({"c": c, "t": "connect", "host": rng.choice(HOSTS), "port": rng.choice([80, 443, 8080]),
-                          "tls": rng.chance(0.45)})
+                          "tls": rng.chance(0.45), "proxy_ok": not rng.chance(0.1)})
             tun[c] = True
-        elif r < 0.32:
+        elif r < 0.32 and used[c]:
+            # (not modelled, not generated: a reverse:https target closing the eagerly opened connection before the first
+            # client byte -- server TLS has not started yet, the first request is answered 502 and the client is closed)
             steps.append({"c": c, "t": "srvclose", "ord": rng.randint(1, 3)})
         else:
             steps.append(_gen_req(rng, c))
+            used[c] = True
     return case
 
 
@@ -235,9 +242,13 @@ class _Peer:
         self.plain[self.tunnelled] += data
 
 
-def _hook_tls(hook):
+def _hook_tls(hook, drv):
     n = hook.name
-    if n == "tls_start_client":
+    if n == "tls_clienthello":
+        # TlsConfig.tls_clienthello (addons/tlsconfig.py), verbatim
+        d = hook.args()[0]
+        d.establish_server_tls_first = d.context.server.tls and drv.ctx.options.connection_strategy == "eager"
+    elif n == "tls_start_client":
         d = hook.args()[0]
         c = SSL.Context(SSL.SSLv23_METHOD)
         c.use_privatekey_file(REPO + CERTS + "trusted-leaf.key")
@@ -289,7 +300,7 @@ class _Client:
             return modes.TransparentProxy(ctx)
 
         def policy(hook, drv):
-            _hook_tls(hook)
+            _hook_tls(hook, drv)
             for a in (ua, nl):
                 h = getattr(a, hook.name, None)
                 if h is not None:
@@ -478,7 +489,7 @@ def _event(st):
         hs = ([[b"Host".hex(), st["hosthdr"].encode().hex()]] if st["hosthdr"] else []) + st["hdrs"]
         return f"WEv {c} (EReq {tgt} {hh} {cfields(hs)} {cbool(st['proxy_ok'])})"
     if st["t"] == "connect":
-        return f"WEv {c} (EConnect {caddr(st['host'], st['port'])} {cbool(st['tls'])})"
+        return f"WEv {c} (EConnect {caddr(st['host'], st['port'])} {cbool(st['tls'])} {cbool(st.get('proxy_ok', True))})"
     return f"WEv {c} (ESrvClose {cN(st['ord'])})"
 
 
